@@ -2,7 +2,7 @@
    operations; the traversal-based ones are added in Memfs/WalkOps.v). *)
 From stdpp Require Import gmap.
 From Coq Require Import NArith.
-From RV Require Import Base.Str Base.Utf8 Base.PathLex Path.Helpers Path.Expand Memfs.State Memfs.Ops.
+From RV Require Import Base.Str Base.Utf8 Base.PathLex Path.Helpers Path.Expand Memfs.State Memfs.Ops Memfs.Walk Memfs.WalkOps.
 
 Inductive op :=
   | OAbs (s : list N) | OExists (s : list N) | OIsDir (s : list N) | OIsFile (s : list N) | OIsSymlink (s : list N)
@@ -15,11 +15,20 @@ Inductive op :=
   | OReadAll (s : list N) | OReadLines (s : list N)
   | ORemove (s : list N) | ORemoveAll (s : list N)
   | OSymlink (l t : list N) | OReadlink (s : list N) | OReadlinkAbs (s : list N)
-  | OMoveP (s d : list N).
+  | OMoveP (s d : list N)
+  (* traversal-based *)
+  | OList (k : listing) (s : list N)
+  | OEntries (s : list N) (wo : wopts)
+  | OCopy (s d : list N) (o : copy_opts)
+  | OChmod (s : list N) (o : chmod_opts)
+  | OChown (s : list N) (o : chown_opts)
+  | OMkfileM (s : list N) (mode : N).
 
 Inductive rval :=
   | VUnit | VBool (b : bool) | VPath (p : list N) | VBytes (d : list N) | VLines (ls : list (list N))
-  | VNum (n : N) | VPair (a b : N).
+  | VNum (n : N) | VPair (a b : N)
+  | VPaths (ps : list (list N))
+  | VItems (is : list (list N + errkind)).
 
 Definition result := (rval + errkind)%type.
 
@@ -112,6 +121,50 @@ Definition step (env : envmap) (m : mfs) (o : op) : outcome (mfs * result) :=
   | OMoveP s d => match move_op env m s d with
                   | Done r => Done (lift_unit r) | Panic => Panic | OutOfFuel => OutOfFuel
                   end
+  | OList k s => match listing_op env m k s with
+                 | Done (inl ps) => Done (m, inl (VPaths ps))
+                 | Done (inr e) => Done (m, inr e)
+                 | Panic => Panic | OutOfFuel => OutOfFuel
+                 end
+  | OEntries s wo =>
+      match resolve env m s with
+      | inr e => Done (m, inr e)
+      | inl p =>
+          match walk (m_ents m) wo no_pre p with
+          | inr e => Done (m, inr e)
+          | inl (Done evs) =>
+              Done (m, inl (VItems (map (fun i => match i with
+                                                  | IOk e => inl (render_rpath (e_path e))
+                                                  | IErr w => inr (werr_kind w)
+                                                  end) (items_of evs))))
+          | inl Panic => Panic
+          | inl OutOfFuel => OutOfFuel
+          end
+      end
+  | OCopy s d o => match copy_op env m s d o with
+                   | Done r => Done (lift_unit r) | Panic => Panic | OutOfFuel => OutOfFuel
+                   end
+  | OChmod s o => match chmod_op env m s o with
+                  | Done r => Done (lift_unit r) | Panic => Panic | OutOfFuel => OutOfFuel
+                  end
+  | OChown s o => match chown_op env m s o with
+                  | Done r => Done (lift_unit r) | Panic => Panic | OutOfFuel => OutOfFuel
+                  end
+  | OMkfileM s mode =>
+      match resolve env m s with
+      | inr e => Done (m, inr e)
+      | inl p =>
+          match add m (new_file p) with
+          | (m1, inr e) => Done (m1, inr e)
+          | (m1, inl p') =>
+              (* self.chmod(&path, mode): chmod_b(path)?.all(mode).exec(), relative to nothing: path is absolute *)
+              match chmod_op env m1 (render_rpath p') {| ch_dirs := mode; ch_files := mode; ch_follow := false; ch_recursive := true; ch_sym := [] |} with
+              | Done (m2, inl _) => Done (m2, inl (VPath (render_rpath p')))
+              | Done (m2, inr e) => Done (m2, inr e)
+              | Panic => Panic | OutOfFuel => OutOfFuel
+              end
+          end
+      end
   end.
 
 Fixpoint run (env : envmap) (m : mfs) (ops : list op) : outcome (mfs * list result) :=
